@@ -60,7 +60,7 @@ pub fn scn_strategy(backend: Backend) -> BoxedStrategy<Scn> {
     (
         proptest::collection::vec((0u8..3, intents()), 0..3),
         intents(),
-        proptest::option::weighted(0.4, intents()),
+        proptest::option::weighted(if backend == Backend::GitRemote { 0.75 } else { 0.4 }, intents()),
         0u8..14,
         prop_oneof![3 => Just(false), 1 => Just(true)],
         if matches!(backend, Backend::GitLocal | Backend::GitRemote) {
@@ -592,7 +592,7 @@ pub fn run(e: &Engine) {
         (Backend::Local2, 60, 1500),
         (Backend::ObjectStore, 60, 1500),
         (Backend::GitLocal, 2, 40),
-        (Backend::GitRemote, 1, 40),
+        (Backend::GitRemote, 2, 60),
     ];
     for (b, quick, thorough) in configs {
         let n = e.tier.pick(quick, thorough);
